@@ -79,6 +79,7 @@ type VerifKCPState struct {
 	SndBufXmit                          []uint32
 	SndBufRto                           []uint32
 	SndBufAcked                         []uint32
+	SndBufFastack                       []uint32
 	RcvQueueFrg                         []uint8
 }
 
@@ -102,6 +103,7 @@ func (kcp *KCP) VerifState(lists bool) (st VerifKCPState) {
 			st.SndBufXmit = append(st.SndBufXmit, seg.xmit)
 			st.SndBufRto = append(st.SndBufRto, seg.rto)
 			st.SndBufAcked = append(st.SndBufAcked, seg.acked)
+			st.SndBufFastack = append(st.SndBufFastack, seg.fastack)
 		}
 		for seg := range kcp.rcv_queue.ForEach {
 			st.RcvQueueSn = append(st.RcvQueueSn, seg.sn)
